@@ -48,12 +48,12 @@ func (d *delayTracer) RegisterSender() tracing.ISenderHandle {
 }
 
 type c02Obs struct {
-	waits    [][2]int // (pending tasks at the call, result 0/1)
-	events   []int    // script order: 2 = a task answered (its branch ends), 0/1 = wait result
-	startOK  bool
-	ceases   int
+	waits      [][2]int // (pending tasks at the call, result 0/1)
+	events     []int    // script order: 2 = a task answered (its branch ends), 0/1 = wait result
+	startOK    bool
+	ceases     int
 	afterCease int // flow-related traces after the cease trace
-	note     string
+	note       string
 }
 
 const (
@@ -67,7 +67,9 @@ func c02Wait(in *Inst, d time.Duration) bool {
 }
 
 // script ops: "w" short wait, "W" long wait, "a<i>" answer task i, "c" three concurrent long waiters + one short
-func c02Run(k int, script []string, forceWindow bool) c02Obs { return c02RunMode(k, script, forceWindow, false) }
+func c02Run(k int, script []string, forceWindow bool) c02Obs {
+	return c02RunMode(k, script, forceWindow, false)
+}
 
 // concurrentStart: every start event is started with StartWith from its own goroutine, all released together
 func c02RunMode(k int, script []string, forceWindow bool, concurrentStart bool) c02Obs {
@@ -368,6 +370,9 @@ func runC02(env *Env) {
 		}
 		run(k, append(s, "W"), false)
 	}
+	// completion is not reported while a token is still inside a sub-process that another token has already left
+	// (two tokens in one sub-process at overlapping times: the activations' monitors must not see each other's end)
+	twoTokensOneSubProcess(env, rep, "C02-early-completion", 8)
 	env.WriteCases(rep, "", "Corr.C02corr", "nat * list nat * nat * nat", items, "c02_mismatches")
 	env.WriteReport(rep)
 }
